@@ -180,7 +180,11 @@ Accepts(cls, entry, mode, k, adj, form, op, which) ==
     [] OTHER -> "no"
 
 \* does an accepted application leave one tensor per site (the class's own structure)?
-KeepsForm(entry, mode, k) ==
+\* (a periodic MPS compressed with an MPO over the whole ring comes back as an open chain: the later MPO routes
+\* then reject it, so the sub-MPO routes do not count as structure preserving on the periodic class)
+KeepsForm(cls, entry, mode, k) ==
+  IF cls = "mpsc" /\ (entry \in {"gate_nonlocal", "gate_with_submpo", "gate_with_mpo"} \/ (k >= 2 /\ mode \in {"nonlocal", "auto-mps"}))
+  THEN FALSE ELSE
   CASE entry \in {"gate", "gate_upper", "gate_lower", "gate_sandwich", "gate_inds"} ->
          \/ (mode = "True" /\ k = 1)
          \/ (mode \in {"split", "reduce-split"} /\ k <= 2)
@@ -188,16 +192,16 @@ KeepsForm(entry, mode, k) ==
     [] entry \in {"gate_inds_with_tn", "op_lazy"} -> FALSE
     [] entry \in {"gate_nonlocal", "gate_with_submpo"} -> mode # "lazy"
     [] OTHER -> TRUE
-FormAfter(form, entry, mode, k) == IF form = "struct" /\ KeepsForm(entry, mode, k) THEN "struct" ELSE "loose"
+FormAfter(cls, form, entry, mode, k) == IF form = "struct" /\ KeepsForm(cls, entry, mode, k) THEN "struct" ELSE "loose"
 
 (* ---------------- comparison up to a positive scalar ---------------------- *)
 \* vq: the observed vector, scaled to max modulus Q and rounded to Gaussian integers; r: the exact reference.
 \* vq = c r  with c > 0, up to the rounding of vq (half a unit per component).
 PropTo(vq, r) ==
   LET n == Len(r)
-      p == CHOOSE i \in 1..n : \A j \in 1..n : GAbs2(r[j]) <= GAbs2(r[i])
+      p == CHOOSE i \in 1..n : \A j \in 1..n : Abs1(r[j]) <= Abs1(r[i])     \* a pivot of maximal size
   IN  /\ Len(vq) = n
-      /\ IF GAbs2(r[p]) = 0 THEN \A i \in 1..n : vq[i] = GZero
+      /\ IF Abs1(r[p]) = 0 THEN \A i \in 1..n : vq[i] = GZero
          ELSE LET c == GMul(GConj(r[p]), vq[p]) IN
               /\ c[1] > 0
               /\ Abs(c[2]) <= Abs1(r[p]) + 1
